@@ -54,8 +54,17 @@ def inner_exprs(r, big_ok, huge=False):
         elif k == 1: opts.append(('tf.client_message("|%s|")' % r.bytes(1 + r.below(40)).hex(), False))
         elif k == 2: opts.append(('uf.client_dgram("|%s|")' % r.bytes(r.below(30)).hex(), True))
         elif k == 3:
-            n = r.choice([0, 1, 2, 3, 6]); opts.append(('eth::frame("|020000000001|", "|020000000002|"%s)' % (', "|%s|"' % r.bytes(n).hex() if n else ''), True))
-        elif k == 4: opts.append(('ipv4::udp::unicast(1.2.3.4:1, 5.6.7.8:2, raw: true, "|%s|")' % r.bytes(r.below(20)).hex(), True))
+            # inner content classes: any addresses, ethertypes a tunnel end point might want to interpret (802.1Q / 802.1ad tags,
+            # IPv4/6, ARP, transparent bridging, ERSPAN), tagged frames with a tag body
+            n = r.choice([0, 1, 2, 3, 6])
+            et = r.choice([None, 0x8100, 0x88a8, 0x0800, 0x0806, 0x86dd, 0x6558, 0x88be, 0x9100, r.below(65536)])
+            macs = ('"|%s|", "|%s|"' % (r.bytes(6).hex(), r.bytes(6).hex())) if r.chance(1, 2) else '"|020000000001|", "|020000000002|"'
+            body = ('"|%s|"' % (r.choice(['0064', '0fff', 'e001']) + r.choice(['0800', '8100', '86dd']) + r.bytes(n).hex())) if et in (0x8100, 0x88a8, 0x9100) else ('"|%s|"' % r.bytes(n).hex() if n else '')
+            opts.append(('eth::frame(%s%s%s)' % (macs, ', ethertype: %d' % et if et is not None else '', ', ' + body if body else ''), True))
+        elif k == 4:
+            # a raw IPv4 packet as inner "frame": its bytes 12..13 are the first octets of the source address
+            src = r.choice(['1.2.3.4', '129.0.0.7', '136.168.1.1', '8.0.69.0', '134.221.0.1'])
+            opts.append(('ipv4::udp::unicast(%s:1, 5.6.7.8:2, raw: true, "|%s|")' % (src, r.bytes(r.below(20)).hex()), True))
         else:
             n = r.choice([100, 1400, 9000, 60000]) if big_ok else r.choice([100, 1400])
             if huge: n = r.choice([65450, 65500, 65550, 66000, 70000])    # around and beyond what a 16-bit length can describe
